@@ -396,7 +396,8 @@ def rule_admission_outcomes(ctx):
                         r.violate(nid, 'oversize-test-shape', fmt(t)[:60], 'the oversize test of %s is `%s` == %s: a candidate whose weight EQUALS max_capacity is treated as too big' % (nid, fmt(t), v),
                                   where=ctx.where(nid), expected='policy_weight > max_capacity (strict)')
                         oversize = v
-            unbounded = any(isinstance(t, tuple) and t[0] == 'discr' and has_field(t[1], ('max_capacity',)) and v == 0 for t, v in lits)
+            unbounded = any(isinstance(t, tuple) and t[0] == 'discr' and has_field(t[1], ('max_capacity',)) and v == 0 and
+                            not any(isinstance(x, tuple) and x and x[0] in ('call', 'bin') for x in subterms(t[1])) for t, v in lits)
             pushes = [e for e in p.events if ev_is(ctx, e, 'push', 'ao')]
             removals = [e for e in p.events if e[0] == 'call' and e[1] in remove_set]
             admit_calls = [e for e in p.events if e[0] == 'call' and e[1] in [a for a, _ in admits(ctx)]]
